@@ -23,9 +23,9 @@ def run(ctx):
                 for st in progsuite.STORES:
                     for inp in (proggen.INPUTS[0], proggen.INPUTS[3]) if ctx.tier == 'quick' else proggen.INPUTS:
                         meta[progsuite.prog_case(cases, st, src, inp, progsuite.HOSTS[1], ast)] = stream
-            elif stream == 'pairs':
-                # every ordered operator pair: all inputs, stores alternating (both in the thorough tier)
-                for inp in proggen.INPUTS:
+            elif stream in ('pairs', 'logic', 'loops'):
+                # every ordered operator pair / terminator shape / loop nesting: all inputs, stores alternating (both in the thorough tier)
+                for inp in (proggen.LOOP_INPUTS if stream == 'loops' else proggen.INPUTS):
                     for st in (progsuite.STORES if ctx.tier == 'thorough' else [rnd.choice(progsuite.STORES)]):
                         meta[progsuite.prog_case(cases, st, src, inp, progsuite.HOSTS[1], ast)] = stream
             else:
